@@ -120,6 +120,16 @@ func (v *FnVC) encodeCall(ins ssa.Instruction, c *ssa.CallCommon, res ssa.Value)
 			v.assumeFreshBound(results[k], v.cur)
 		}
 	}
+	// interior / local pointers handed to a callee: the enclosing storage is havocked afterwards (the callee's
+	// effect on it is not tracked through the contract)
+	for _, a := range args {
+		if l, ok := v.ptrs[a]; ok && (l.Kind == LLocal || len(l.Path) > 0) {
+			if contract != nil && len(contract.Modifies) == 0 && !contract.ModifiesAll {
+				continue // contract says the callee modifies nothing
+			}
+			v.havocAt(l, v.cur)
+		}
+	}
 	v.bindResults(res, results)
 }
 
@@ -859,10 +869,6 @@ func (v *FnVC) atExit() {
 		o := v.oblige("covers", "(not "+f+")", "reachable: "+c.Text, pos)
 		o.IsCover = true
 	}
-	// type invariants of returned values
-	for _, r := range results {
-		v.checkTypeInv(r, env, "result", pos)
-	}
 	v.checkFrame(st, env, pos)
 }
 
@@ -889,7 +895,7 @@ func (v *FnVC) checkFrame(st *State, env *Env, pos token.Pos) {
 	}
 	sort.Strings(keys)
 	for _, k := range keys {
-		if strings.HasPrefix(k, "IT:") || strings.HasPrefix(k, "C:") && false {
+		if strings.HasPrefix(k, "IT:") || strings.HasPrefix(k, "L:") {
 			continue
 		}
 		if allowedAll[k] {
